@@ -375,6 +375,14 @@ func checkModule(c Case) error {
 		kept = append(kept, args...)
 		return starlark.None, nil
 	})
+	// A host built-in that freezes its argument straight away, while the module is still running (a host
+	// registering a callback, say). What the module binds to globals afterwards must still end up frozen.
+	pre["publish"] = starlark.NewBuiltin("publish", func(th *starlark.Thread, b *starlark.Builtin, args starlark.Tuple, kwargs []starlark.Tuple) (starlark.Value, error) {
+		for _, a := range args {
+			a.Freeze()
+		}
+		return starlark.None, nil
+	})
 	preKeys := pre.Keys()
 	preVals := map[string]starlark.Value{}
 	for k, v := range pre {
@@ -396,10 +404,23 @@ func checkModule(c Case) error {
 		return starlark.StringDict{"HOSTREG": hostReg}, nil
 	}
 	src := c.Src
+	if v := len(c.Src) % 5; v != 4 {
+		// One closure over a variable is frozen early by the host; the variable is then rebound to a fresh value
+		// and a sibling closure over the same variable becomes a global.
+		fresh := []string{"[2, []]", "{\"k\": [3]}", "([5], {6: []})", "[zz_a, [7]]"}[v]
+		early := "publish(zz_a)"
+		if len(c.Src)%2 == 0 {
+			early = "publish([zz_a])" // reached through a container
+		}
+		src = "def zz_outer():\n    v = [1]\n    def zz_a(): return v\n    " + early + "\n    v = " + fresh +
+			"\n    def zz_b(): return v\n    return zz_b\nzz_sib = zz_outer()\n" + src
+		vk.S.Class("early-host-freeze-then-rebind")
+	}
 	loadsHost := len(c.Src)%3 != 0
 	if loadsHost {
-		src = "load(\"host.star\", \"HOSTREG\")\nHOSTREG.append(len(HOSTREG))\n" + c.Src
+		src = "load(\"host.star\", \"HOSTREG\")\nHOSTREG.append(len(HOSTREG))\n" + src
 	}
+	c.Src = src // (diagnostics below show the module as executed)
 	g, err := starlark.ExecFileOptions(&syntax.FileOptions{Set: c.Set}, thread, "mod.star", src, pre)
 	if loadsHost {
 		if hostReg.Len() != 2 {
